@@ -142,9 +142,11 @@ def run_schedule(variant, shapes, T, seed, eager, sched, first, grads, sb, ub, t
   """first: the optimizer object of the uninterrupted run (its compiled program is reused for the
   segment before the first crash; every CrashRestore builds a new object)."""
   mism, events = [], []
-  box = first
+  box = Box(variant, shapes, seed, eager) if eager else first   # op-by-op: no compile to save, fresh object
   # start from a fresh init state of the same object
-  if box.r is not None and hasattr(box.r, "reset"):
+  if eager:
+    pass
+  elif box.r is not None and hasattr(box.r, "reset"):
     box.r.reset()
   elif box.r is None:
     box._state = box.opt.init(box.params)
